@@ -6,12 +6,14 @@ Require Import Nib.C05.Model Nib.C05.Spec.
 Open Scope Z_scope.
 
 (** accounts of a scenario: 0 signer, 1 fee collector, 2 R, 3 X, 4 B, 5 N, 6 Y, 7 B2, 8 C3, 9 D, 10 and 11 second and third signer,
-    12 factory F, 13 the address of F's next creation *)
-Definition universe : list nat := [0; 1; 2; 3; 4; 5; 6; 7; 8; 9; 10; 11; 12; 13]%nat.
+    12 factory F, 13 the address of F's next creation, 14 wasm contract W (32-byte address),
+    15 PH = the 20-byte account made of the last 20 bytes of W *)
+Definition universe : list nat := [0; 1; 2; 3; 4; 5; 6; 7; 8; 9; 10; 11; 12; 13; 14; 15]%nat.
 
 Record otx := {
   o_base_fee : Z; o_block_gas : Z;
   o_tx : etx; o_out : outcome;
+  o_trunc : list (nat * nat);            (* (longer address, its last-20-bytes account) pairs a bank send of the tx touched *)
   o_before : list Z; o_after : list Z;   (* unibi balances of [universe] around DeliverTx *)
   o_supply_before : Z; o_supply_after : Z
 }.
@@ -45,8 +47,11 @@ Definition outcome_eqb (a b : outcome) : bool :=
   | _, _ => false
   end.
 
-Definition tx_agrees (o : otx) : bool :=
-  let '(b', out) := deliver (env_of o) (bank_of (o_before o) (o_supply_before o)) (o_tx o) in
+(** [sync_repaired] is the regenerated fact "SyncStateDBWithAccount mirrors 20-byte addresses only": the model run
+    against the implementation is the model of the code as it stands *)
+Definition tx_agrees (sync_repaired : bool) (o : otx) : bool :=
+  let '(b', out) := deliver_cur (if sync_repaired then [] else o_trunc o) (env_of o)
+                                (bank_of (o_before o) (o_supply_before o)) (o_tx o) in
   outcome_eqb out (o_out o) &&
   forallb (fun a => bal b' a =? lookup universe (o_after o) a) universe &&
   (supply b' =? o_supply_after o).
@@ -89,8 +94,8 @@ Definition bmeas_of (o : obundle) : bmeas :=
      bm_before := bank_of (ob_before o) (ob_supply_before o);
      bm_after := bank_of (ob_after o) (ob_supply_after o) |}.
 
-Definition mismatch (c : case) : bool :=
-  existsb (fun o => negb (tx_agrees o)) (fst c) || existsb (fun o => negb (bundle_agrees o)) (snd c).
+Definition mismatch (sync_repaired : bool) (c : case) : bool :=
+  existsb (fun o => negb (tx_agrees sync_repaired o)) (fst c) || existsb (fun o => negb (bundle_agrees o)) (snd c).
 
 Definition violates (c : case) : bool :=
   existsb (fun o => negb (Pb (meas_of o))) (fst c) || existsb (fun o => negb (PBb (bmeas_of o))) (snd c).
